@@ -30,6 +30,8 @@ DIMS = (1, 2, 3)
 # =============================================================================== rollout / repeat
 def _state(e, leaves):
     """symbolic pytree state: one array, or a dict of two arrays of different rank"""
+    if leaves == "complex":
+        return sym.array(e, "u0", (sym.integer(e, "A", lo=1), sym.integer(e, "B", lo=1)), "complex")
     a = sym.array(e, "u0", (sym.integer(e, "A", lo=1), sym.integer(e, "B", lo=1)))
     if leaves == 1:
         return a
@@ -59,22 +61,26 @@ class _Step:
                 for l2 in leaves:
                     bv2 = ops.bound_vars("O", l2.ndim)
                     with ops.nested("O"):
-                        keys.append(smt.zr(smt.R(l2.at_(tuple(bv2)))))
+                        el = l2.at_(tuple(bv2))
+                    keys.append(ops.PAIR(smt.zr(el.re), smt.zr(el.im)) if isinstance(el, CX) else smt.zr(smt.R(el)))
                 t = keys[0]
                 for k in keys[1:]:
                     t = ops.PAIR(t, k)
-                kp = tuple(x if smt.is_conc(x) else ("z", x.get_id()) for l in leaves for x in (values.dim_term(d) for d in l.shape))
-                app = ops.interner(e).get((f"{self.name}.{li}", kp), t, ops.bound_vars("O", max(l.ndim for l in leaves)), leaf.ndim, e)
-                return app(tuple(idx))
-            out.append(SArr(leaf.shape, elem, "real"))
+                kp = ops.size_key(e, tuple(values.dim_term(d) for l in leaves for d in l.shape))
+                bvs = ops.bound_vars("O", max(l.ndim for l in leaves))
+                if leaf.kind == "complex":
+                    parts = [ops.interner(e).get((f"{self.name}.{li}.{p}", kp), t, bvs, leaf.ndim, e)(tuple(idx)) for p in ("re", "im")]
+                    return CX(parts[0], parts[1])
+                return ops.interner(e).get((f"{self.name}.{li}", kp), t, bvs, leaf.ndim, e)(tuple(idx))
+            out.append(SArr(leaf.shape, elem, leaf.kind))
         td = jtu.tree_structure(u, is_leaf=lambda x: isinstance(x, SArr))
         return jtu.tree_unflatten(td, out)
 
 
 def _roll_cases(kind):
     out = []
-    for leaves in (1, 2):
-        for takes_aux in (False, True):
+    for leaves in (1, 2, "complex"):
+        for takes_aux in ((False, True) if leaves != "complex" else (False,)):
             for const_aux in ((True, False) if takes_aux else (True,)):
                 for inc in ((False, True) if kind == "rollout" else (None,)):
                     def build(e, leaves=leaves, takes_aux=takes_aux, const_aux=const_aux, inc=inc):
@@ -337,8 +343,11 @@ Contract(PQ + "__call__", props={"C05", "C20"}, cases=_call_cases(_poisson_self,
 
 
 # ==================================================================================== ForcedStepper
-def _forced_self(e, D):
-    inner, N, C = _base_self(e, D)
+def _forced_self(e, D, inner_repeated=False):
+    if inner_repeated:
+        inner, N, C = _rep_self(e, D, "n_inner")
+    else:
+        inner, N, C = _base_self(e, D)
     return make_instance(ForcedStepper, {"stepper": inner}), N, C
 
 
@@ -351,12 +360,16 @@ Contract("exponax._forced_stepper.ForcedStepper", props={"C12", "C14"},
 def _forced_state_cases(fourier):
     out = []
     for D in DIMS:
-        def build(e, D=D):
-            o, N, C = _forced_self(e, D)
-            shp = (C,) + (wshape(D, N) if fourier else (N,) * D)
-            k = "complex" if fourier else "real"
-            return (o, sym.array(e, "u", shp, k), sym.array(e, "f", shp, k)), {}
-        out.append(Case(f"D={D}", build))
+        for rep in (False, True):
+            if rep and D == 3:
+                continue
+
+            def build(e, D=D, rep=rep):
+                o, N, C = _forced_self(e, D, rep)
+                shp = (C,) + (wshape(D, N) if fourier else (N,) * D)
+                k = "complex" if fourier else "real"
+                return (o, sym.array(e, "u", shp, k), sym.array(e, "f", shp, k)), {}
+            out.append(Case(f"D={D}" + (",inner=RepeatedStepper" if rep else ""), build))
     return out
 
 
@@ -365,7 +378,9 @@ def _plus_dt(self, u, f):
 
 
 def _inner_step_fourier(stepper, u_hat):
-    """spec of BaseStepper.step_fourier: the integrator's step"""
+    """spec of the inner stepper's step_fourier: the integrator's step (BaseStepper) / the n-fold sub-step (RepeatedStepper)"""
+    if isinstance(stepper, RepeatedStepper):
+        return _rep_sf(stepper, u_hat)
     return stepper._integrator.step_fourier(u_hat)
 
 
@@ -399,13 +414,15 @@ def _rep_fields(stepper, n):
 
 
 Contract("exponax._repeated_stepper.RepeatedStepper", props={"C14"},
-         cases=[Case(f"D={D}", lambda e, D=D: ((_base_self(e, D)[0], sym.integer(e, "n", lo=0)), {})) for D in DIMS],
+         cases=[Case(f"D={D}", lambda e, D=D: ((_base_self(e, D)[0], sym.integer(e, "n", lo=0)), {})) for D in DIMS]
+         + [Case(f"D={D},inner is itself a RepeatedStepper", lambda e, D=D: ((_rep_self(e, D, "n_inner")[0], sym.integer(e, "n", lo=0)), {})) for D in (1, 2)]
+         + [Case("inner is a ForcedStepper-free plain stepper with symbolic dt", lambda e: ((_base_self(e, 1)[0], sym.integer(e, "n", lo=1)), {}))],
          spec=lambda stepper, num_sub_steps: ObjSpec(RepeatedStepper, _rep_fields(stepper, num_sub_steps)))
 
 
-def _rep_self(e, D):
+def _rep_self(e, D, nname="n"):
     inner, N, C = _base_self(e, D)
-    n = sym.integer(e, "n", lo=0)
+    n = sym.integer(e, nname, lo=0)
     f = _rep_fields(inner, n)
     f["stepper"] = inner
     return make_instance(RepeatedStepper, f), N, C
